@@ -1159,9 +1159,7 @@ def resolve_cnamedtuple_fieldnames(value):
 
 
 # Keys: classes/constructors
-# Values: a tuple of fieldnames is resolving them was successful.
-#         Otherwise, an exception that was raised when attempting
-#         to resolve the fieldnames.
+# Values: a tuple of fieldnames if resolving them was successful.
 _cnamedtuple_fieldnames_by_class = WeakKeyDictionary()
 
 
@@ -1170,16 +1168,13 @@ _cnamedtuple_fieldnames_by_class = WeakKeyDictionary()
 # - return value of os.uname()
 def pretty_cnamedtuple(value, ctx, trailing_comment=None):
     cls = type(value)
-    if cls not in _cnamedtuple_fieldnames_by_class:
-        try:
-            fieldnames = resolve_cnamedtuple_fieldnames(value)
-        except Exception as exc:
-            fieldnames = exc
+    fieldnames = _cnamedtuple_fieldnames_by_class.get(cls)
+    if fieldnames is None:
+        # A failure is not cached: whether repr(value) can be parsed
+        # depends on the field values, not only on the class, and a
+        # cached failure would change how every later instance prints.
+        fieldnames = resolve_cnamedtuple_fieldnames(value)
         _cnamedtuple_fieldnames_by_class[cls] = fieldnames
-
-    fieldnames = _cnamedtuple_fieldnames_by_class[cls]
-    if isinstance(fieldnames, Exception):
-        raise fieldnames
 
     return pretty_call_alt(
         ctx,
